@@ -33,7 +33,9 @@ def main():
     h = next(x for x in mod.HARNESSES if x.name == job["harness"])
     if mode in ("symbolic", "models"):
         for m in h.models:
-            importlib.import_module("envmodels." + m).install()
+            name, _, arg = m.partition(":")
+            inst = importlib.import_module("envmodels." + name).install
+            inst(tuple(arg.split(","))) if arg else inst()
     fn = h.make(**job.get("params", {}))
     out = {"mode": mode}
     t0 = time.time()
